@@ -10,10 +10,14 @@
     * a section that was not decodable is still not decodable in its new surroundings (the decoder
       sees the bytes behind the section, and those may have been rewritten);
     * every re-encoded section is followed by a tail its codec tolerates (`ok g tail`: always true for
-      the LZMA family, "nothing" for ZLIB);
-    * every saved volume has a length that is a multiple of 8 below 2^62 (growth aligns to the first
-      block size, which need not be a multiple of 8), ends in a tail the file walk reads as free
-      space, and its last file is not a bare 24-byte header flush with the end of the volume.
+      the LZMA family, "nothing" for ZLIB).
+
+  (Follow-up wp-c06c: the former clauses on the saved volume itself are gone.  The grammar follows the
+  repaired reader — /repo 8039e86 / cce350a: an erased tail of 24..31 bytes is free space, a file
+  header may start exactly at Length-24 — so "ends in a readable tail" and "last file is not a bare
+  header flush with the end" are no conditions any more; "length a multiple of 8 below 2^62" follows
+  from the input's well-formedness when the volume keeps its length and is asked of the *grown*
+  length by `okFv` (growth branch only) otherwise.)
 
   Core Lean only.
 -/
@@ -22,12 +26,6 @@ import FianoModel.Uefi.NestedGrowth
 
 namespace Fiano.Uefi.Nested
 open Fiano Fiano.Uefi Fiano.Uefi.Spec
-
-/-- the last file of the list is longer than a bare header -/
-def lastBig : List CFile → Bool
-  | [] => true
-  | [f] => decide (24 < sizeFile (flatFile f))
-  | _ :: f :: fs => lastBig (f :: fs)
 
 mutual
   def sideSec (h : Hooks) (ok : Guid → Bytes → Bool) : Bytes → CSec → Bool
@@ -47,15 +45,7 @@ mutual
     | [] => true
     | f :: fs => sideFile h ok f && sideFiles h ok fs
   def sideFv (h : Hooks) (ok : Guid → Bytes → Bool) : CFv → Bool
-    | .ffs _ _ _ _ _ blocks ext files free =>
-      sideFiles h ok files &&
-        decide ((endFiles (preLen blocks ext) (flatFiles files) + free) % 8 = 0) &&
-        decide (endFiles (preLen blocks ext) (flatFiles files) + free < 0x4000000000000000) &&
-        decide (endFiles (preLen blocks ext) (flatFiles files) + 24 <
-                  endFiles (preLen blocks ext) (flatFiles files) + free →
-                alignUp (endFiles (preLen blocks ext) (flatFiles files)) 8 + 32 ≤
-                  endFiles (preLen blocks ext) (flatFiles files) + free) &&
-        (decide (0 < free) || lastBig files)
+    | .ffs _ _ _ _ _ _ _ files _ => sideFiles h ok files
     | .other _ => true
 end
 
@@ -78,25 +68,13 @@ theorem wfFile_padLeaf (n : Nat) (h24 : 24 ≤ n) (hs : n < 0xFFFFFF) : wfFile h
   refine ⟨⟨⟨⟨⟨⟨⟨⟨by decide, hck⟩, by decide⟩, by decide⟩, by decide⟩, by decide⟩, ?_⟩, by decide⟩, by omega⟩
   simp [hsup]
 
-theorem wfFiles_head {off len : Nat} {gs : List CFile} (hw : wfFiles h off len gs = true) (hne : gs ≠ []) :
-    alignUp off 8 + 24 < len := by
-  cases gs with
-  | nil => exact absurd rfl hne
-  | cons g gs => exact (wfFiles_cons hw).2.1
-
-theorem lastBig_append_ne (p : CFile) (gs : List CFile) (hne : gs ≠ []) : lastBig (p :: gs) = lastBig gs := by
-  cases gs with
-  | nil => exact absurd rfl hne
-  | cons g gs => rfl
-
 /-- the re-laid list is laid out as the grammar wants it -/
 theorem wfFiles_relay : ∀ (fs : List CFile) (off len : Nat),
     (∀ f ∈ fs, wfFile h f = true ∧ 24 ≤ sizeFile (flatFile f)) → okFv.padsSmall off fs = true →
     endFiles off (flatFiles (relay off fs)) ≤ len →
-    (endFiles off (flatFiles (relay off fs)) < len ∨ lastBig (relay off fs) = true) →
     wfFiles h off len (relay off fs) = true
-  | [], _, _, _, _, _, _ => rfl
-  | f :: fs, off, len, hall, hps, hend, hlast => by
+  | [], _, _, _, _, _ => rfl
+  | f :: fs, off, len, hall, hps, hend => by
     obtain ⟨hwf, h24⟩ := hall f (by simp)
     have hattr := storedAttrs_lt f hwf
     obtain ⟨s1, s2, s3, s4, _⟩ := fileStart_spec off (storedAttrs (flatFile f)) hattr
@@ -105,60 +83,35 @@ theorem wfFiles_relay : ∀ (fs : List CFile) (off len : Nat),
     have hrest : ∀ g ∈ fs, wfFile h g = true ∧ 24 ≤ sizeFile (flatFile g) := fun g hg => hall g (by simp [hg])
     have hn8 := alignUp_of_mod8 _ s2
     -- the tail of the list, from where `f` ends
-    have key : ∀ (hend' : endFiles (fileStart off (storedAttrs (flatFile f)) + sizeFile (flatFile f))
-          (flatFiles (relay (fileStart off (storedAttrs (flatFile f)) + sizeFile (flatFile f)) fs)) ≤ len)
-        (hlast' : endFiles (fileStart off (storedAttrs (flatFile f)) + sizeFile (flatFile f))
-          (flatFiles (relay (fileStart off (storedAttrs (flatFile f)) + sizeFile (flatFile f)) fs)) < len ∨
-          lastBig (f :: relay (fileStart off (storedAttrs (flatFile f)) + sizeFile (flatFile f)) fs) = true),
+    have key : ∀ (_ : endFiles (fileStart off (storedAttrs (flatFile f)) + sizeFile (flatFile f))
+          (flatFiles (relay (fileStart off (storedAttrs (flatFile f)) + sizeFile (flatFile f)) fs)) ≤ len),
+        fileStart off (storedAttrs (flatFile f)) + sizeFile (flatFile f) ≤ len ∧
         wfFiles h (fileStart off (storedAttrs (flatFile f))) len
           (f :: relay (fileStart off (storedAttrs (flatFile f)) + sizeFile (flatFile f)) fs) = true := by
-      intro hend' hlast'
+      intro hend'
       have hge := endFiles_ge (flatFiles (relay (fileStart off (storedAttrs (flatFile f)) + sizeFile (flatFile f)) fs))
         (fileStart off (storedAttrs (flatFile f)) + sizeFile (flatFile f))
       have ih : wfFiles h (fileStart off (storedAttrs (flatFile f)) + sizeFile (flatFile f)) len
-          (relay (fileStart off (storedAttrs (flatFile f)) + sizeFile (flatFile f)) fs) = true := by
-        apply wfFiles_relay fs _ len hrest hps' hend'
-        rcases hlast' with hl | hl
-        · exact Or.inl hl
-        · cases fs with
-          | nil => exact Or.inr rfl
-          | cons g gs => exact Or.inr (by rw [lastBig_append_ne f _ (relay_ne _ (g :: gs) (by simp))] at hl; exact hl)
-      have h24lt : fileStart off (storedAttrs (flatFile f)) + 24 < len := by
-        cases fs with
-        | nil =>
-          simp only [relay, flatFiles, endFiles] at hend' hlast'
-          rcases hlast' with hl | hl
-          · omega
-          · simp only [lastBig, decide_eq_true_eq] at hl; omega
-        | cons g gs =>
-          have hh := wfFiles_head ih (relay_ne _ (g :: gs) (by simp))
-          have := alignUp_ge (fileStart off (storedAttrs (flatFile f)) + sizeFile (flatFile f)) 8 (by decide)
-          omega
+          (relay (fileStart off (storedAttrs (flatFile f)) + sizeFile (flatFile f)) fs) = true :=
+        wfFiles_relay fs _ len hrest hps' hend'
+      refine ⟨by omega, ?_⟩
       simp only [wfFiles, Bool.and_eq_true, decide_eq_true_eq, beq_iff_eq, hn8]
-      exact ⟨⟨⟨⟨hwf, h24lt⟩, by omega⟩, s3⟩, ih⟩
-    rw [relay_cons] at hend hlast ⊢
+      exact ⟨⟨⟨⟨hwf, by omega⟩, by omega⟩, s3⟩, ih⟩
+    rw [relay_cons] at hend ⊢
     by_cases hc : fileStart off (storedAttrs (flatFile f)) = alignUp off 8
-    · rw [if_pos hc, List.nil_append] at hend hlast ⊢
-      simp only [flatFiles, endFiles, ← hc] at hend hlast
-      have := key hend (by rcases hlast with hl | hl; exact Or.inl hl; exact Or.inr hl)
+    · rw [if_pos hc, List.nil_append] at hend ⊢
+      simp only [flatFiles, endFiles, ← hc] at hend
+      have := (key hend).2
       simp only [wfFiles, Bool.and_eq_true, decide_eq_true_eq, beq_iff_eq, hn8] at this
       simp only [wfFiles, Bool.and_eq_true, decide_eq_true_eq, beq_iff_eq, ← hc]
       exact this
-    · rw [if_neg hc] at hend hlast ⊢
+    · rw [if_neg hc] at hend ⊢
       have hgap : 24 ≤ fileStart off (storedAttrs (flatFile f)) - alignUp off 8 := by omega
       have hpsz := sizeFile_padLeaf _ hgap
       have hpos : alignUp off 8 + (fileStart off (storedAttrs (flatFile f)) - alignUp off 8) =
           fileStart off (storedAttrs (flatFile f)) := by omega
-      simp only [List.singleton_append, flatFiles, flatFile, endFiles, hpsz, hpos, hn8] at hend hlast
-      have hl2 : endFiles (fileStart off (storedAttrs (flatFile f)) + sizeFile (flatFile f))
-            (flatFiles (relay (fileStart off (storedAttrs (flatFile f)) + sizeFile (flatFile f)) fs)) < len ∨
-          lastBig (f :: relay (fileStart off (storedAttrs (flatFile f)) + sizeFile (flatFile f)) fs) = true := by
-        rcases hlast with hl | hl
-        · exact Or.inl hl
-        · exact Or.inr (by rw [lastBig_append_ne _ _ (by simp)] at hl; exact hl)
-      have hk := key hend hl2
-      have hhead := wfFiles_head hk (by simp)
-      rw [hn8] at hhead
+      simp only [List.singleton_append, flatFiles, flatFile, endFiles, hpsz, hpos, hn8] at hend
+      obtain ⟨hfit, hk⟩ := key hend
       have hwp : wfFile h (.leaf (padLeaf (fileStart off (storedAttrs (flatFile f)) - alignUp off 8))) = true :=
         wfFile_padLeaf _ hgap hpad
       have hattr0 : storedAttrs (padLeaf (fileStart off (storedAttrs (flatFile f)) - alignUp off 8)) = 0 := rfl
@@ -191,8 +144,8 @@ theorem wfFv_ffs_intro {zv : Bytes} {v3 : Bool} {attrs rev rsv : Nat} {blocks : 
     wfFv h (.ffs zv v3 attrs rev rsv blocks ext files free) = true := by
   simp only [wfFv, Bool.and_eq_true, decide_eq_true_eq, beq_iff_eq, bne_iff_ne, Bool.or_eq_true,
     List.isEmpty_iff, Bool.not_eq_true', List.isEmpty_eq_false_iff]
-  refine ⟨⟨⟨⟨⟨⟨⟨⟨⟨⟨⟨⟨⟨w.hzv, w.hattrs⟩, w.hpol⟩, w.hrev⟩, w.hrsv⟩, w.hblocks⟩, w.hhdr⟩, ?_⟩, ?_⟩, w.hlen8⟩,
-    w.hlenlt⟩, w.hlen64⟩, hf⟩, w.htail⟩
+  refine ⟨⟨⟨⟨⟨⟨⟨⟨⟨⟨⟨⟨w.hzv, w.hattrs⟩, w.hpol⟩, w.hrev⟩, w.hrsv⟩, w.hblocks⟩, w.hhdr⟩, ?_⟩, ?_⟩, w.hlen8⟩,
+    w.hlenlt⟩, w.hlen64⟩, hf⟩
   · rcases w.hnb with h1 | h1
     · left; exact (flatFiles_nil_iff files).mp h1
     · right; exact h1
@@ -219,8 +172,7 @@ theorem wfFv_relaid (zv : Bytes) (v3 : Bool) (attrs rev rsv : Nat) (blocks : Lis
     (hnil : files = [] → gs = [])
     (hps : okFv.padsSmall (preLen blocks ext) gs = true)
     (hfit : e' ≤ l ∨ ∃ b0 bs, blocks = b0 :: bs ∧ b0.size ≠ 0 ∧ e' ≤ alignGo e' b0.size)
-    (hside : sideFv h ok (.ffs zv v3 attrs rev rsv (finishLen l e' blocks).2 ext (relay (preLen blocks ext) gs)
-      ((finishLen l e' blocks).1 - e')) = true) :
+    (h8 : (finishLen l e' blocks).1 % 8 = 0) (h62 : (finishLen l e' blocks).1 < 0x4000000000000000) :
     wfFv h (.ffs zv v3 attrs rev rsv (finishLen l e' blocks).2 ext (relay (preLen blocks ext) gs)
       ((finishLen l e' blocks).1 - e')) = true := by
   have hbl := finishLen_len l e' blocks
@@ -231,9 +183,6 @@ theorem wfFv_relaid (zv : Bytes) (v3 : Bool) (attrs rev rsv : Nat) (blocks : Lis
     · exact Or.inr ⟨b0, bs, hb, hf⟩)
   have hLen : endFiles (preLen (finishLen l e' blocks).2 ext) (flatFiles (relay (preLen blocks ext) gs)) +
       ((finishLen l e' blocks).1 - e') = (finishLen l e' blocks).1 := by rw [hpre, ← he']; omega
-  simp only [sideFv, Bool.and_eq_true, decide_eq_true_eq, Bool.or_eq_true, hLen] at hside
-  obtain ⟨⟨⟨⟨_, h8⟩, h62⟩, htail⟩, hlastc⟩ := hside
-  rw [hpre, ← he'] at htail
   -- the volume does not shrink; its block map stays in range
   have hL : l ≤ (finishLen l e' blocks).1 ∧ (finishLen l e' blocks).2.all blockOk = true := by
     by_cases hc : e' ≤ l
@@ -247,7 +196,7 @@ theorem wfFv_relaid (zv : Bytes) (v3 : Bool) (attrs rev rsv : Nat) (blocks : Lis
         exact ⟨by show l ≤ alignGo e' b0.size; omega, blockOk_setCount b0 _ hb.1 hsz, hb.2⟩
   have hl64 := w.hlen64
   apply wfFv_ffs_intro
-  · refine ⟨w.hzv, w.hattrs, w.hpol, w.hrev, w.hrsv, hL.2, by rw [fvHdrLen_congr hbl]; exact w.hhdr, ?_, ?_, ?_, ?_, ?_, ?_⟩
+  · refine ⟨w.hzv, w.hattrs, w.hpol, w.hrev, w.hrsv, hL.2, by rw [fvHdrLen_congr hbl]; exact w.hhdr, ?_, ?_, ?_, ?_, ?_⟩
     · rcases w.hnb with h1 | h1
       · left
         have := hnil ((flatFiles_nil_iff files).mp h1)
@@ -266,14 +215,9 @@ theorem wfFv_relaid (zv : Bytes) (v3 : Bool) (attrs rev rsv : Nat) (blocks : Lis
     · rw [hLen]; exact h8
     · rw [hLen]; exact h62
     · rw [hLen]; omega
-    · rw [hLen, hpre, ← he']; exact htail
   · rw [hLen, hpre]
     apply wfFiles_relay gs _ _ (fun f hf => ⟨hall f hf, wfFile_size24 f (hall f hf)⟩) hps
     · rw [← he']; exact hge
-    · rw [← he']
-      rcases hlastc with hc | hc
-      · left; omega
-      · right; exact hc
 
 /-! ### the normal form of a well-formed volume is well-formed -/
 
@@ -372,19 +316,42 @@ theorem wfn_fv (hlaw : LawsOK h ok) : ∀ (v : CFv) (rz : Bool), wfFv h v = true
     simp only [normFv] at hs ⊢
     have hsf : sideFiles h ok (normFiles h files) = true := by
       have := hs
-      simp only [sideFv, Bool.and_eq_true] at this
+      simp only [sideFv] at this
       rw [← sideFiles_relay (normFiles h files) (preLen blocks ext)]
-      exact this.1.1.1.1
+      exact this
     refine wfFv_relaid zv v3 attrs rev rsv blocks ext files (normFiles h files) free _ _ w rfl rfl
-      (wfn_files hlaw files _ _ hfiles hokf hsf) (by intro hn; subst hn; rfl) hps ?_ hs
-    rcases hfit with hf | hf
-    · exact Or.inl hf
-    · right
-      cases blocks with
-      | nil => simp at hf
-      | cons b0 bs =>
-        simp only [Bool.and_eq_true, bne_iff_ne, ne_eq, decide_eq_true_eq] at hf
-        exact ⟨b0, bs, rfl, hf.2.1, hf.2.2⟩
+      (wfn_files hlaw files _ _ hfiles hokf hsf) (by intro hn; subst hn; rfl) hps ?_ ?_ ?_
+    · rcases hfit with hf | hf
+      · exact Or.inl hf
+      · right
+        cases blocks with
+        | nil => simp at hf
+        | cons b0 bs =>
+          simp only [Bool.and_eq_true, bne_iff_ne, ne_eq, decide_eq_true_eq] at hf
+          exact ⟨b0, bs, rfl, hf.2.1.1.1, hf.2.1.1.2⟩
+    · -- the new length is a multiple of 8: kept, or the grown length `okFv` asks this of
+      by_cases hc : endFiles (preLen blocks ext) (flatFiles (relay (preLen blocks ext) (normFiles h files))) ≤
+          endFiles (preLen blocks ext) (flatFiles files) + free
+      · rw [finishLen_keep _ _ blocks hc]; exact w.hlen8
+      · rcases hfit with hf | hf
+        · exact absurd hf hc
+        · cases blocks with
+          | nil => simp at hf
+          | cons b0 bs =>
+            simp only [Bool.and_eq_true, bne_iff_ne, ne_eq, decide_eq_true_eq] at hf
+            rw [finishLen_grow _ _ b0 bs (by omega)]
+            exact hf.2.1.2
+    · by_cases hc : endFiles (preLen blocks ext) (flatFiles (relay (preLen blocks ext) (normFiles h files))) ≤
+          endFiles (preLen blocks ext) (flatFiles files) + free
+      · rw [finishLen_keep _ _ blocks hc]; exact w.hlenlt
+      · rcases hfit with hf | hf
+        · exact absurd hf hc
+        · cases blocks with
+          | nil => simp at hf
+          | cons b0 bs =>
+            simp only [Bool.and_eq_true, bne_iff_ne, ne_eq, decide_eq_true_eq] at hf
+            rw [finishLen_grow _ _ b0 bs (by omega)]
+            exact hf.2.2
 end
 
 /-- **the normal form is inside the grammar**: under the codec laws and the side conditions -/
